@@ -38,7 +38,9 @@ def dec_spec():
     sp = {}
     V = {"value": "tok"}
     sp["decode_quoted_string"] = dict(params=V, exits=[
-        Exit("return", when=lambda pre, a: quoted(txt(a["value"])), res="str", effect=log("decode_quoted_string", "returned")),
+        Exit("return", when=lambda pre, a: quoted(txt(a["value"])), res="str", effect=log("decode_quoted_string", "returned"),
+             post=lambda pre, post, a, r: [] if a.get("self") is not None and getattr(a["self"], "cls", "") != "PVLDecoder" else
+             [("the string is the text between the quote characters, unchanged", r.t == inner(txt(a["value"])))]),
         Exit("ValueError", when=lambda pre, a: z3.Not(quoted(txt(a["value"]))), effect=log("decode_quoted_string", "raised"))])
     sp["decode_non_decimal"] = dict(params=V, exits=[
         Exit("return", res="int", effect=log("decode_non_decimal", "returned")),
